@@ -13,7 +13,7 @@ SIG_D22 = "collect-unmatched-limit-raises"
 
 
 def obs_key(o):
-    return (o["vars"], o["scan_count"], o["match_count"], o["is_valid"], o["stopped"], tuple(o["errors"]), tuple(o["printouts"]))
+    return (o["vars"], o["scan_count"], o["match_count"], o["is_valid"], o["stopped"], tuple(o["errors"]), tuple(o["printouts"]), o.get("frozen"))      # frozen: the run has been finalized (a run cut short by nexts=k has not)
 
 
 def run(ctx):
